@@ -216,9 +216,12 @@ func repoMeta(rs repoSpec) zoekt.Repository {
 func toDocument(d docSpec) index.Document {
 	doc := index.Document{Name: d.Name, Content: append([]byte(nil), d.Content...), Branches: d.Branches,
 		SubRepositoryPath: d.SubRepo, Language: d.Language, SkipReason: index.SkipReason(d.Skip)}
+	noMeta := len(d.Syms) > 0 && d.Syms[0].NoMeta
 	for _, s := range d.Syms {
 		doc.Symbols = append(doc.Symbols, index.DocumentSection{Start: s.Start, End: s.End})
-		doc.SymbolsMetaData = append(doc.SymbolsMetaData, &zoekt.Symbol{Sym: string(d.Content[s.Start:s.End]), Kind: s.Kind, Parent: s.Parent, ParentKind: s.PK})
+		if !noMeta {
+			doc.SymbolsMetaData = append(doc.SymbolsMetaData, &zoekt.Symbol{Sym: string(d.Content[s.Start:s.End]), Kind: s.Kind, Parent: s.Parent, ParentKind: s.PK})
+		}
 	}
 	return doc
 }
@@ -310,11 +313,29 @@ func realMerge(dir string, paths []string) (string, error) {
 		closers = append(closers, inf.Close)
 		files = append(files, inf)
 	}
-	tmp, dst, err := index.Merge(dir, files...)
+	tmp, dst, err := safeMerge(dir, files)
 	if err != nil {
 		return "", err
 	}
 	return dst, os.Rename(tmp, dst)
+}
+
+func safeMerge(dir string, files []index.IndexFile) (tmp, dst string, err error) {
+	defer func() {
+		if r := recover(); r != nil {
+			err = fmt.Errorf("PANIC in index.Merge: %v", r)
+		}
+	}()
+	return index.Merge(dir, files...)
+}
+
+func safeExplode(dir, path string) (err error) {
+	defer func() {
+		if r := recover(); r != nil {
+			err = fmt.Errorf("PANIC in index.Explode: %v", r)
+		}
+	}()
+	return index.Explode(dir, path)
 }
 
 // ---------------------------------------------------------------- dump → line protocol
@@ -704,6 +725,16 @@ func runCase(work string, cs caseSpec, id int) ([]gen.Case, error) {
 		if strings.Contains(merr.Error(), "no branch found") {
 			mc.Key = "merge-error-no-branch-found"
 		}
+		if strings.Contains(merr.Error(), "PANIC") {
+			mc.Key = "merge-panic"
+			for _, rs := range cs.Repos {
+				for _, d := range rs.Docs {
+					if len(d.Syms) > 0 && d.Syms[0].NoMeta {
+						mc.Key = "merge-panic-sections-without-metadata"
+					}
+				}
+			}
+		}
 		out = append(out, mc)
 		return out, nil
 	}
@@ -742,7 +773,7 @@ func runCase(work string, cs caseSpec, id int) ([]gen.Case, error) {
 		return nil, err
 	}
 	ec := gen.Case{In: "explode " + edump, Class: "explode/" + cs.Class, Detail: detail, Nontrivial: len(mtables.Repos) > 1}
-	if err := index.Explode(edir, ecopy); err != nil {
+	if err := safeExplode(edir, ecopy); err != nil {
 		ec.Impl = "err"
 		ec.Go = "explode failed: " + err.Error()
 		ec.Key = "explode-error"
@@ -899,7 +930,7 @@ func main() {
 		}
 	}
 	r := gen.NewRand(f.Seed)
-	n := f.N(24, 300)
+	n := f.N(24, 220)
 	for i := 0; i < n; i++ {
 		run(genCase(r, i), id)
 		id++
